@@ -63,6 +63,18 @@ Direct(d) ==
     /\ act' = [op |-> "direct", k |-> 0, d |-> d]
     /\ UNCHANGED <<st, dest, cb, active, pend, trig, qexists, unc>>
 
+\* the application gives up a request that is still waiting in the queue (IOCB.abort, or its IOCB timeout expiring there):
+\* it leaves the queue with an abort; the request in flight and the rest of the queue are not affected
+\* (modelled while a request is in flight toward that destination: its outcome then finds the queue as it is; giving up the
+\*  last queued request in the instant between an outcome and the deferred trigger leaves an empty queue object behind
+\*  until the next request to that address -- not exercised)
+AbortPending(k) ==
+    /\ st[k] = "pending" /\ active[dest[k]] # 0
+    /\ st' = [st EXCEPT ![k] = "aborted"] /\ cb' = [cb EXCEPT ![k] = @ + 1]
+    /\ pend' = [d \in D |-> SelectSeq(pend[d], LAMBDA x : x # k)]
+    /\ act' = [op |-> "abortp", k |-> k, d |-> dest[k]]
+    /\ UNCHANGED <<dest, active, trig, qexists, unc>>
+
 \* the stack delivers the outcome of the request in flight toward d
 Outcome(d, ok) ==
     /\ active[d] # 0
@@ -96,6 +108,7 @@ Trigger(d) ==
 
 Next == \/ \E k \in K, d \in D, u \in BOOLEAN : Request(k, d, u)
         \/ \E d \in D : Direct(d)
+        \/ \E k \in K : AbortPending(k)
         \/ \E d \in D, ok \in BOOLEAN : Outcome(d, ok)
         \/ \E d \in D : Trigger(d)
 \* fairness: the stack keeps its promise (an outcome for the request in flight) and deferred calls are run; the
@@ -121,7 +134,8 @@ Monotone == [][A_Monotone]_vars
 \* an outcome comes from the stack's answer to that very request: sending something else -- with or without an IOCB --
 \* completes no confirmed request
 A_OutcomeOnlyFromReply ==
-    \A k \in K : (~unc[k] /\ st[k] \in {"pending", "active"} /\ Rank(st'[k]) = 3) => act'.op = "outcome" /\ act'.k = k
+    \A k \in K : (~unc[k] /\ st[k] \in {"pending", "active"} /\ Rank(st'[k]) = 3)
+                      => (act'.op \in {"outcome", "abortp"} /\ act'.k = k)
 OutcomeOnlyFromReply == [][A_OutcomeOnlyFromReply]_vars
 EventuallyAllDone == <>[](\A k \in K : dest[k] # 0 => Done(k))
 =============================================================================
